@@ -269,6 +269,8 @@ def run_trio(ex, schedule_fn):
             nursery.cancel_scope.cancel()
 
     clock = trio.testing.MockClock()
+    import trio._core._run as trio_run
+    trio_run._r.seed(getattr(ex, "trio_seed", 0))      # trio reverses run batches at random: make it replayable
     trio.run(main, clock=clock)
 
 
@@ -468,6 +470,7 @@ def run_schedule(ex, schedule_fn):
 def run_one(runtime, cfg, seed):
     rng = random.Random(seed)
     ex = Explorer(runtime, cfg, rng)
+    ex.trio_seed = seed
     return run_schedule(ex, random_schedule)
 
 
